@@ -36,6 +36,9 @@ RULE = (
     "/ first token consumed: measured as 'returned a value' or 'raised after consuming input'); "
     "distinct by SHA-1; the evidence lists the exception classes seen"
 )
+RULE += (
+    " Round 9 added: expanding messages (RDATA names that are pointers to a ~255-octet name; HIP with up to 400 of them) re-rendered at message, RRset and rdata level."
+)
 ASSUMPTIONS = [
     "exception family enforced = subclasses of dns.exception.DNSException (zone-level entry points: "
     "also builtin ValueError/KeyError as documented); the narrower FormError / SyntaxError families are "
